@@ -154,6 +154,8 @@ def spec_len(spec, lens=None):
             if lens and it.key in lens:
                 v = lens[it.key]
                 lin = lin + (v if isinstance(v, Lin) else linearize(v))
+            elif it.key.startswith("enc(") and it.key.endswith(")"):
+                lin = lin + linearize(length(T("call", "encode", (sym(it.key[4:-1], ty="str"),), ty="bytes")))
             else:
                 lin = lin + Lin({length(sym(it.key, ty="bytes")): 1})
         elif isinstance(it, CRC):
@@ -168,7 +170,9 @@ def spec_len(spec, lens=None):
 
 
 def len_atom(width, lin: Lin):
-    """an A() cell for an arithmetic length field whose value must equal `lin`"""
+    """an A() cell for an arithmetic length field whose value must equal `lin` (a constant becomes K)"""
+    if lin.is_const():
+        return K(width, lin.c)
     return A(width, repr(lin))
 
 
